@@ -115,6 +115,10 @@ def run(chk):
         "own startpoints, and the DIMACS text's sampling set / header / clauses are parsed and its projected model count enumerated on model circuits."
     )
     chk.assume("PySAT model convention get_model()[i-1] == +-i; DIMACS 'c ind ... 0' projection line as consumed by approxmc")
+    from ..structural import blocking_clause_rule, closure_discipline_rule
+
+    blocking_clause_rule(chk, repo, "C08.S.blocking-clause")
+    closure_discipline_rule(chk, repo, "C08.S.reflexive-closure", [("props.py", "signal_probability")], {})
     # ---- B: model_count -----------------------------------------------
     fm = repo.func(FILE, "model_count")
     pm = func_params(fm.node)
